@@ -64,6 +64,10 @@ type hsEnd struct {
 	accept  []uint32
 	reqAuth bool
 	isNode  bool
+	// refusedBuild: the end announces a client build the code refuses to talk to (a hotfix in both credential
+	// checkers); such a handshake may be refused although versions and identities are fine, but both ends must
+	// still agree on the verdict
+	refusedBuild bool
 }
 
 func newEnd(name string, version uint32, accept []uint32, reqAuth bool, nodes map[string]bool, isNode bool) *hsEnd {
@@ -79,6 +83,9 @@ func newEnd(name string, version uint32, accept []uint32, reqAuth bool, nodes ma
 func (e *hsEnd) start(nodes map[string]bool) {
 	a := new(app.App)
 	a.SetVersionName("sim:" + e.name)
+	if e.refusedBuild {
+		a.SetVersionName("middle:v0.36.6")
+	}
 	a.Register(&hsAccount{e.keys}).Register(&hsNodeConf{nodes: nodes}).Register(&hsConfig{secureservice.Config{RequireClientAuth: e.reqAuth, CompatibleVersions: e.accept}})
 	old := secureservice.ProtoVersion
 	secureservice.ProtoVersion = e.version
@@ -283,7 +290,9 @@ func runC14(r *core.Run) {
 	nEnds := 2 + s.Choose("nends", 2)
 	for i := 0; i < nEnds; i++ {
 		v := versions[s.Weighted("version", []int{3, 3, 3, 3, 2})]
-		ends = append(ends, newEnd(fmt.Sprintf("E%d", i), v, pickAccept(v), s.Flip("reqauth", 0.3), nodes, s.Flip("isnode", 0.35)))
+		e := newEnd(fmt.Sprintf("E%d", i), v, pickAccept(v), s.Flip("reqauth", 0.3), nodes, s.Flip("isnode", 0.35))
+		e.refusedBuild = s.Flip("refused-build", 0.08)
+		ends = append(ends, e)
 	}
 	sch.Off = true
 	for _, e := range ends {
@@ -499,7 +508,9 @@ func runC14(r *core.Run) {
 			if outOK != inOK {
 				r.Fail("verdicts-differ", "", "conn%d without network faults: dialer %v, listener %v", i, errStr(c.resOut.err), errStr(c.resIn.err))
 			}
-			if outOK != ok {
+			if refused := c.out.refusedBuild || c.in.refusedBuild; refused && ok && !outOK {
+				r.Probe("refused-build-rejected")
+			} else if outOK != ok {
 				r.Fail("wrong-verdict", fmt.Sprintf("expected-%v", ok), "conn%d %s(v%d accepts %v) -> %s(v%d accepts %v reqAuth=%v node=%v) allowCheck=%v: handshake result %v/%v, the configuration demands success=%v",
 					i, c.out.name, c.out.version, c.out.accept, c.in.name, c.in.version, c.in.accept, c.in.reqAuth, c.in.isNode, p.allowCheck, errStr(c.resOut.err), errStr(c.resIn.err), ok)
 			}
